@@ -423,7 +423,7 @@ def _effectful_statements(ctx: Ctx, save: FuncInfo) -> list[ast.stmt]:
     return out
 
 
-@rule('C12.ROLLBACK-COVER', ['C12', 'C13', 'C14', 'C08'], min_instances=3)
+@rule('C12.ROLLBACK-COVER', ['C12', 'C13', 'C14', 'C08', 'C10'], min_instances=3)
 def rollback_cover(ctx: Ctx):
     """Every storage write effect of a save lies inside a try whose BaseException handler unconditionally
     deletes the same key and re-raises."""
@@ -744,7 +744,7 @@ def storage_siblings(ctx: Ctx):
 # C09 (cache side)
 
 
-@rule('C09.LOAD-TASK-GUARDS', ['C09'], min_instances=3)
+@rule('C09.LOAD-TASK-GUARDS', ['C09', 'C08'], min_instances=3)
 def load_task_guards(ctx: Ctx):
     """load_task returns only under three guards each raising TaskNotFound: key prefix of the requested
     type, stored cache class, isinstance(task, task_type)."""
@@ -893,3 +893,51 @@ def find_keys(ctx: Ctx):
     okn = bool(rets) and all(isinstance(r.value, (ast.List, ast.Tuple)) and not r.value.elts for r in rets)
     yield ctx.ob('C08.FIND-KEYS', okn, nfk, nfk.node if nfk else None, 'NullStorage.find_keys is empty', '' if okn else
                  'NullStorage.find_keys reports keys', construct='null')
+
+
+@rule('C06.CACHE-STATELESS', ['C06', 'C08', 'C09'])
+def cache_stateless(ctx: Ctx):
+    """Cache objects are shared by every Lab, storage and worker of a process: outside __init__ no Cache method
+    writes an attribute of self (a memo of storage contents would be served for another storage or go stale)."""
+    n = 0
+    for c in ctx.P.subclasses(roles.CACHE):
+        for m in c.methods.values():
+            if m.name == '__init__':
+                continue
+            n += 1
+            ws = field_writes(m)
+            yield ctx.ob('C06.CACHE-STATELESS', not ws, m, ws[0].node if ws else m.node, f'{c.name}.{m.name} keeps no state on the cache object',
+                         '' if not ws else f'`{src(ws[0].node)[:60]}` stores state on the cache object, which is shared between Labs, storages and '
+                         'worker processes: what it remembers about one storage entry is served for another or goes stale')
+    if n == 0:
+        raise AnalysisError('no Cache methods found')
+
+
+@rule('C13.PREPARE-BEFORE-VISIBLE', ['C13', 'C12'])
+def prepare_before_visible(ctx: Ctx):
+    """Everything that can fail or take time other than the writes themselves (serialising the task, building
+    the metadata) happens before the first storage.file_handle() of a save makes the entry visible."""
+    bc = base_cache(ctx)
+    save = ctx.P.find_method(bc, 'save')
+    g = ctx.cfg(save)
+    fhs = storage_calls(ctx, save, ('file_handle',))
+    if not fhs:
+        raise AnalysisError('BaseCache.save opens no storage file')
+    first = min(fhs, key=lambda c: (c.lineno, c.col_offset))
+    fn0 = g.primary(first)
+    after = g.reachable([fn0], exc=False, include_starts=False)
+    allowed = ('file_handle', 'save_result', 'dump', 'dumps', 'delete', 'debug', 'info', 'write', 'close', 'flush')
+    bad = []
+    for call in calls_in(save.node):
+        if call is first:
+            continue
+        cn = g.primary(call)
+        if cn in after or (cn == fn0 and (call.lineno, call.col_offset) > (first.lineno, first.col_offset)):
+            nm = call.func.attr if isinstance(call.func, ast.Attribute) else (dotted(call.func) or '')
+            in_handler = any(isinstance(h, ast.ExceptHandler) and any(x is call for x in ast.walk(h)) for h in walk_local(save.node))
+            if nm.split('.')[-1] not in allowed and not in_handler:
+                bad.append(call)
+    yield ctx.ob('C13.PREPARE-BEFORE-VISIBLE', not bad, save, bad[0] if bad else first,
+                 'between the first file_handle() and the end of the save only the writes happen',
+                 '' if not bad else f'`{src(bad[0])[:70]}` runs after the entry became visible (first storage.file_handle) and before the payload is '
+                 'complete: a kill or failure there leaves an entry that is reported as cached but cannot be loaded')
